@@ -12,7 +12,7 @@ def make_prog(rng, base=None, opts=None):
     """Decorate a synth case with what rendering needs: kinds of types, packages of items and sets, spellings."""
     opts = opts or {}
     if base is None:
-        (tree, given, out), defect = synth.random_case(rng, maxk=opts.get("maxk", 8))
+        (tree, given, out), defect = synth.random_case(rng, maxk=opts.get("maxk", 8), arg_w=opts.get("arg_w", 18))
     else:
         (tree, given, out), defect = base
     tree = json.loads(json.dumps(tree))
@@ -22,7 +22,7 @@ def make_prog(rng, base=None, opts=None):
             p["varargs"] = False
     prog = {"tree": tree, "given": list(given), "out": out, "defect": defect,
             "cleanup": rng.random() < 0.75, "err": rng.random() < 0.75,
-            "style": rng.choice(["panic", "return"]), "same_pkg_name": rng.random() < 0.12}
+            "style": rng.choice(["panic", "return"]), "same_pkg_name": rng.random() < opts.get("same_pkg_p", 0.12)}
     if opts.get("full_sig"):
         prog["cleanup"] = prog["err"] = True
     kinds = {}
@@ -67,6 +67,28 @@ def make_prog(rng, base=None, opts=None):
                 for p in s["providers"]:
                     if p["pkg"] != 1:
                         p["pkg"] = 1; changed = True
+    if rng.random() < opts.get("dupset_p", 0.04):
+        hosts = [x for x in spec.all_sets(tree) if x["imports"]]
+        if hosts:
+            h = rng.choice(hosts)
+            h["imports"].append(json.loads(json.dumps(rng.choice(h["imports"]))))
+            prog["defect"] = "dup-set-direct+" + prog["defect"]
+    # anonymous inline sets: wire.NewSet(...) written in place instead of a named variable
+    if rng.random() < opts.get("inline_p", 0.2):
+        count = {}
+        for x in spec.all_sets(tree):
+            count[x["id"]] = count.get(x["id"], 0) + 1
+        for h in spec.all_sets(tree):
+            for x in h["imports"]:
+                if count[x["id"]] == 1 and rng.random() < 0.5 and (h["pkg"] == 0 or x["pkg"] == 1):
+                    x["inline"] = True; x["pkg"] = h["pkg"] if h["pkg"] == 1 else x["pkg"]
+    # concrete argument types that happen to implement a bound interface without being bound to it
+    prog["extra_impl"] = {}
+    ifs = sorted({b["iface"] // 2 for x in spec.all_sets(tree) for b in x["bindings"]})
+    if ifs and prog["given"] and rng.random() < opts.get("extra_impl_p", 0.3):
+        for g in prog["given"]:
+            if kinds.get(g // 2) != "iface" and rng.random() < 0.6:
+                prog["extra_impl"][g // 2] = [rng.choice(ifs)]
     prog["multi_var"] = rng.random() < 0.3
     prog["star"] = rng.random() < 0.5
     # adversarial names (C14): types, injector parameters, library package name, package-level declarations
@@ -167,7 +189,7 @@ def adversarial_names(rng, prog, kinds):
         params = []
         for i in range(n):
             r = rng.random()
-            params.append("_" if r < 0.2 else (pp.pop() if r < 0.8 and pp else "a%d" % i))
+            params.append("_" if r < 0.3 else (pp.pop() if r < 0.85 and pp else "a%d" % i))
     decls = []
     dp = list(DECL_POOL); rng.shuffle(dp)
     taken = set()
@@ -302,6 +324,11 @@ class Render:
                 touch(b["iface"])
                 c = touch(b["conc"])
                 (c["ptrimpl"] if b["conc"] % 2 else c["impl"]).add(b["iface"] // 2)
+        for k, lst in (p.get("extra_impl") or {}).items():
+            if int(k) in self.types and self.types[int(k)]["kind"] != "iface":
+                for i in lst:
+                    if i in self.types and self.types[i]["kind"] == "iface":
+                        self.types[int(k)]["impl"].add(i)
         for k, xf in (p.get("extra_fields") or {}).items():
             td = touch(2 * k)
             touch(xf["t"])
@@ -388,7 +415,10 @@ class Render:
         q = "" if pkg == 1 else self.liblocal + "."
         out = []
         for i in s["imports"]:
-            out.append((q if i["pkg"] == 1 else "") + "S%d" % i["id"])
+            if i.get("inline"):
+                out.append("wire.NewSet(%s)" % ", ".join(self.item_exprs(i, pkg)))
+            else:
+                out.append((q if i["pkg"] == 1 else "") + "S%d" % i["id"])
         for pr in s["providers"]:
             if pr["struct"]:
                 k = pr["outs"][0] // 2
@@ -433,7 +463,7 @@ class Render:
 
     def lib_go(self):
         L = ["package %s\n" % self.libname]
-        uses_wire = any(s["pkg"] == 1 and s["id"] != 0 for s in self.sets.values())
+        uses_wire = any(s["pkg"] == 1 and s["id"] != 0 and not s.get("inline") for s in self.sets.values())
         imps = ['"%s/rt"' % self.mod]
         if uses_wire:
             imps.append('"%s"' % WIRE_IMPORT)
@@ -471,7 +501,7 @@ class Render:
         return "\n".join(L)
 
     def sets_src(self, pkg):
-        ss = [s for s in sorted(self.sets.values(), key=lambda x: x["id"]) if s["pkg"] == pkg and s["id"] != 0]
+        ss = [s for s in sorted(self.sets.values(), key=lambda x: x["id"]) if s["pkg"] == pkg and s["id"] != 0 and not s.get("inline")]
         out = []
         if self.p["multi_var"] and len(ss) >= 2:
             names = ", ".join("S%d" % s["id"] for s in ss)
@@ -524,6 +554,16 @@ class Render:
              "var _ %s\n" % (self.liblocal + "." + self.tn(min(self.types))),
              "func Inject(%s) %s {\n%s\n}\n" % (params, rs, body)]
         files["app/wire.go"] = "\n".join(W)
+        self.inline_pos = {}
+        text, start = files["app/wire.go"], 0
+        for i, e in zip(p["tree"]["imports"], self.item_exprs(p["tree"], 0)):
+            if i.get("inline"):
+                at = text.find(e, text.find("wire.Build(") if start == 0 else start)
+                if at >= 0:
+                    line = text.count("\n", 0, at) + 1
+                    col = at - (text.rfind("\n", 0, at) + 1) + 1
+                    self.inline_pos[(line, col)] = i["id"]
+                    start = at + 1
         # driver
         D = ["package app\n", "import (\n\t%s\n\t\"%s/rt\"\n)\n" % (imp_lib, self.mod), "var _ %s\n" % (self.liblocal + "." + self.tn(min(self.types)))]
         fails = [""] + ["P%d" % pr["id"] for pr in sorted(self.provs.values(), key=lambda x: x["id"]) if pr["err"] and not pr["struct"]]
